@@ -1,6 +1,7 @@
 package edf
 
 import (
+	"encoding"
 	"encoding/binary"
 	"fmt"
 	"math"
@@ -188,6 +189,10 @@ func getEncoder(t reflect.Type, state *stateEncode) (*encoder, error) {
 		return enc, nil
 
 	case reflect.Slice:
+		if encodesToNothing(t.Elem()) {
+			// takes no bytes on the wire: the decoder can not tell how many there are
+			return nil, fmt.Errorf("slice of zero-size elements (%v) is not supported", t)
+		}
 		encItem, err := getEncoder(t.Elem(), state)
 		if err != nil {
 			return nil, err
@@ -244,6 +249,10 @@ func getEncoder(t reflect.Type, state *stateEncode) (*encoder, error) {
 		return enc, nil
 
 	case reflect.Array:
+		if encodesToNothing(t.Elem()) && t.Len() > 0 {
+			// takes no bytes on the wire: the decoder can not tell how many there are
+			return nil, fmt.Errorf("array of zero-size elements (%v) is not supported", t)
+		}
 		encItem, err := getEncoder(t.Elem(), state)
 		if err != nil {
 			return nil, err
@@ -311,6 +320,32 @@ func getEncoder(t reflect.Type, state *stateEncode) (*encoder, error) {
 	encoders.Store(t, v)
 
 	return enc, nil
+}
+
+// encodesToNothing reports whether the values of the type take no bytes on the wire
+// (struct{}, [0]T and compositions of them, unless they bring their own marshaling).
+// Slices and arrays of them can not be supported: the decoder could not check the
+// number of the elements against the data.
+func encodesToNothing(t reflect.Type) bool {
+	if t.Size() != 0 {
+		return false
+	}
+	if t.Implements(reflect.TypeOf((*Marshaler)(nil)).Elem()) ||
+		t.Implements(reflect.TypeOf((*encoding.BinaryMarshaler)(nil)).Elem()) {
+		return false
+	}
+	switch t.Kind() {
+	case reflect.Array:
+		return t.Len() == 0 || encodesToNothing(t.Elem())
+	case reflect.Struct:
+		for i := 0; i < t.NumField(); i++ {
+			if encodesToNothing(t.Field(i).Type) == false {
+				return false
+			}
+		}
+		return true
+	}
+	return false
 }
 
 func encodePID(value reflect.Value, b *lib.Buffer, state *stateEncode) error {
